@@ -229,6 +229,10 @@ def answer (line : String) : String :=
     match t.toNat? with
     | some t => "ok " ++ hexOfBytes (dtnString t)
     | none => "bad-op"
+  | ["ts.sinks", t, s] =>       -- the same text, whatever kind of writer receives it
+    match t.toNat?, s.toNat? with
+    | some t, some s => "ok " ++ hexOfBytes (tsString t s)
+    | _, _ => "bad-op"
   | ["ts.string", t, s] =>
     match t.toNat?, s.toNat? with
     | some t, some s => "ok " ++ hexOfBytes (tsString t s)
